@@ -10,6 +10,7 @@ import (
 	"github.com/Tom-Johnston/mamba/ints"
 	"github.com/Tom-Johnston/mamba/sortints"
 	"mambasim/driver"
+	"mambasim/gutil"
 )
 
 const sentinel = -987654321
@@ -475,7 +476,7 @@ func runSort(r *driver.Run) {
 	}
 	if shape == 8 {
 		// quicksort killer: forces the depth limit, i.e. the heapsort fallback
-		xs = killerInput(n)
+		xs = gutil.QuicksortKiller(n)
 		if t.Chance(1, 2) {
 			for i := range xs { // same order type, with duplicates
 				xs[i] /= 2
@@ -529,7 +530,7 @@ func main() {
 			if tier == "thorough" {
 				return driver.Plan{Random: 2000000, WallLimit: 20 * time.Minute}
 			}
-			return driver.Plan{Random: 100000, WallLimit: 5 * time.Minute}
+			return driver.Plan{Random: 400000, WallLimit: 5 * time.Minute}
 		},
 		RunOne: func(r *driver.Run) {
 			if r.T.Draw(8) == 7 {
